@@ -12,7 +12,6 @@ import (
 
 	"github.com/WuKongIM/WuKongIM/pkg/cluster/propose"
 	kit "github.com/WuKongIM/WuKongIM/pkg/zzverif/c27kit"
-	"github.com/WuKongIM/WuKongIM/pkg/zzverif/ev"
 )
 
 type c27Payload struct {
@@ -149,8 +148,5 @@ func c27ForwardCodec() *kit.Codec {
 }
 
 func TestVerifC27Propose(t *testing.T) {
-	r := ev.Start(t, "C27")
-	defer r.Finish()
-	k := kit.NewRunner(r)
-	k.Run([]*kit.Codec{c27PayloadCodec(), c27ForwardCodec()})
+	kit.Main(t, "C27", func() []*kit.Codec { return []*kit.Codec{c27PayloadCodec(), c27ForwardCodec()} }, nil)
 }
